@@ -662,7 +662,7 @@ func isIgnoreUnexportedSet(f reflect.StructField) (bool, error) {
 	allowed, err := strconv.ParseBool(tag)
 	if err != nil {
 		err = newErrInvalidInput(
-			fmt.Sprintf("invalid value %q for %q tag on field %v", tag, _ignoreUnexportedTag, f.Name), err)
+			fmt.Sprintf("invalid value %q for %q tag on field %v: %v", tag, _ignoreUnexportedTag, f.Name, err), nil)
 	}
 
 	return allowed, err
